@@ -161,7 +161,7 @@ theorem connidPairs_eq (E : LatEnv) (Lt : Lattice) :
     connidPairs E Lt true =
       pairsOf E.len Lt.ends ++ evals (endsAt Lt.ends Lt.eos.startNode) Lt.eos.leftId := rfl
 
-theorem flatMap_congr' {α β : Type} {f g : α → List β} {l : List α} (h : ∀ a ∈ l, f a = g a) :
+theorem flatMap_congrCT' {α β : Type} {f g : α → List β} {l : List α} (h : ∀ a ∈ l, f a = g a) :
     l.flatMap f = l.flatMap g := by
   induction l with
   | nil => rfl
@@ -182,7 +182,7 @@ theorem flatMap_update_perm {α β : Type} (f f' : α → List β) (e0 : α) (x 
     by_cases he : e = e0
     · subst he
       have hrest : es.flatMap f' = es.flatMap f := by
-        apply flatMap_congr'
+        apply flatMap_congrCT'
         intro a ha
         exact hne a (by simp [ha]) (fun h => hnd'.1 (h ▸ ha))
       rw [hrest, h0, List.append_assoc, List.append_assoc]
@@ -217,7 +217,7 @@ theorem pairsOf_insert (E : LatEnv) (L : Ends) (p sw : Nat) (c : Cand)
       exact endsAt_pushAt_same _ _ _ hL
     rw [hpush, List.flatMap_append]
     congr 1
-    · apply flatMap_congr'
+    · apply flatMap_congrCT'
       intro r hr
       rw [hst r.startNode (Nat.ne_of_lt (hstart c.endWord (by omega) r hr))]
     · simp only [List.flatMap_cons, List.flatMap_nil, List.append_nil]
@@ -226,7 +226,7 @@ theorem pairsOf_insert (E : LatEnv) (L : Ends) (p sw : Nat) (c : Cand)
   · intro e he hne
     rw [List.mem_range'_1] at he
     rw [hst e hne]
-    apply flatMap_congr'
+    apply flatMap_congrCT'
     intro r hr
     rw [hst r.startNode (Nat.ne_of_lt (hstart e (by omega) r hr))]
 
